@@ -315,6 +315,79 @@ def tie_run(ctx):
                             "(%d identical), and Spec accepts those calls and reads them back as the original (%d equal)" % (n, stats["identical"], stats["spec_equal"]))
 
 
+def unclosed_run(ctx):
+    """originals that were left UNCLOSED: the writer program is stopped between two API calls (image = the first k backend writes, k = the
+    log length after a randomly chosen call), jls_copy copies that file, and the reader dump of the copy must equal the reader dump of the
+    original itself (which jls_rd_open repairs in place when it is opened afterwards)."""
+    import crashlib
+    rng = ctx.rng
+    n = 25 if ctx.tier == "quick" else 250
+    progs = [gen_writer(rng, ctx.tier, allow_omit=False, deep=(i % 2 == 0)) for i in range(n)]
+    probes = crashlib.probe(ctx, [p[0] for p in progs])
+    scripts, metas = [], []
+    for (w, sigs, _), pr in zip(progs, probes):
+        if not pr["ok"] or len(pr["marks"]) < 6:
+            continue
+        first_data = max(i for i, o in enumerate(w) if o.split()[0] in ("src", "sig")) + 2
+        cand = [i for i in range(first_data, len(w)) if i < len(pr["marks"])]
+        if not cand:
+            continue
+        for i in sorted(set(rng.sample(cand, min(3, len(cand))))):
+            k = pr["marks"][i]
+            d = ["srcs", "sigs", "udr"]
+            for sid in sigs:
+                d += ["rdall %d" % sid, "an %d -1000000000000" % sid, "ut %d -1000000000000" % sid]
+            d.append("an 0 -1000000000000")
+            scripts.append(";".join(w + ["wclose", "image %d 0" % k, "copy", "ropen"] + d + ["rclose", "use 1", "ropen"] + d + ["rclose"]))
+            metas.append(dict(k=k, after_op=i, nd=len(d), nw=len(w)))
+    impl, _ = proglib.run_pair(ctx, scripts, "plain", model=False, timeout=60)
+    nv = 0
+    for script, meta, a in zip(scripts, metas, impl):
+        toks = a.split(";")
+        base = meta["nw"] + 3                      # w ops, wclose, image, copy
+        copy_rc = toks[base - 1] if len(toks) >= base else ""
+        dc = toks[base + 1: base + 1 + meta["nd"]]
+        do = toks[base + 1 + meta["nd"] + 3: base + 1 + 2 * meta["nd"] + 3]
+        o1 = toks[base] if len(toks) > base else ""
+        o2 = toks[base + meta["nd"] + 3] if len(toks) > base + meta["nd"] + 3 else ""
+        ctx.count(("unclosed", script), nontrivial=True, sample={"kind": "unclosed original -> jls_copy", "stopped_after_op": meta["after_op"], "copy": copy_rc, "open_copy": o1, "open_original": o2})
+        why = None
+        sig = None
+        if "FAULT" in a:
+            why = "fault: " + toks[-1]
+        elif o2.split()[1:2] != ["0"]:
+            continue                               # the original itself cannot be opened after the stop: nothing to compare (C03's subject)
+        elif copy_rc.split()[1:2] != ["0"]:
+            why = "jls_copy of a readable unclosed original failed: %s" % copy_rc
+        elif o1.split()[1:2] != ["0"]:
+            why = "the copy of an unclosed original does not open: %s" % o1
+        else:
+            diff = [(x.split()[0], x[:120], y[:120]) for x, y in zip(dc, do) if x != y]
+            if diff:
+                why = "the copy of an unclosed original reads back differently from the original: %s: copy '%s' / original '%s'" % diff[0]
+                # recorded finding: annotation / UTC tracks are not repaired by jls_rd_open, so the reader of the unclosed original returns only the
+                # entries reachable through committed index chunks, while jls_copy re-issues every DATA chunk: the copy holds MORE entries
+                import crashlib as _cl
+                def _more(x, y):
+                    if x.split()[0] not in ("ut", "an") or x.split()[0] != y.split()[0]:
+                        return False
+                    ix, _r = proglib.parse_items(x[2:])
+                    iy, _r2 = proglib.parse_items(y[2:])
+                    return ix is not None and iy is not None and len(iy) < len(ix) and _cl.is_subsequence(iy, ix)
+                if all(_more(x, y) for x, y in zip(dc, do) if x != y):
+                    sig = "unclosed-original-copy-recovers-more-index-track-entries"
+        if why and nv < 40:
+            if ctx.violation("c17_unclosed_%d.txt" % (nv + 1), "%s\n\nscript:\n%s\n\nreplay: echo '<script>' | /verif/build/plain/jlsrun prog /tmp timeout=60\nimplementation: %s\n" % (why, script, a[-3000:]),
+                             "unclosed original: " + why[:200], sig=sig):
+                nv += 1
+    ctx.extra["unclosed_originals"] = {"cases": len(scripts), "violations": nv}
+
+
+def pre_all(ctx):
+    tie_run(ctx)
+    unclosed_run(ctx)
+
+
 def classify(script, meta, mism):
     if meta.get("has_omit") and all(x["cls"] == "fsr" and x["op"].startswith(("rd", "len")) for x in mism):
         return "copy-omitted-blocks-become-fill"
@@ -327,8 +400,8 @@ def run(ctx):
         "case = writer program (1-2 sources, 1-3 FSR signals of any type with minimal/small definitions, first ids 0/5/-3/100000, 0..4000 samples in "
         "calls of block-relative sizes, constant blocks / omission toggles, annotations incl. signal 0, UTC entries, user data, all interleaved), "
         "closed, then jls_copy; the COPY is opened and sources, signals, user data, lengths, whole-signal and random windows, all annotations and all "
-        "UTC entries are compared with the extracted spec_of of the program; distinct = script",
-        classify=classify, timeout=60, pre_run=tie_run)
+        "UTC entries are compared with the extracted spec_of of the program; also UNCLOSED originals (the program stopped between two API calls): reader dump of the copy = reader dump of the original; distinct = script",
+        classify=classify, timeout=60, pre_run=pre_all)
 
 
 def replay(ctx, path):
